@@ -30,7 +30,7 @@ var c07Tris = []string{"timestampsFullPrecision", "pageArith", "limitZeroAll", "
 	"addGuardCreated", "addGuardUpdated", "addGuardExpire", "addGuardValueType",
 	"updRefreshCreated", "updRefreshUpdated", "updRefreshValue", "updRefreshExpireOnFlag",
 	"typeChangeDetected", "valueShared", "flagsSticky", "setVoidClearsTyped", "initialisedAfterFill",
-	"refileGuardExpire", "patchExpiredReindexesAll", "claimPathsStandard", "windowBoundsChecked",
+	"refileGuardExpire", "patchExpiredReindexesAll", "claimPathsStandard", "windowBoundsChecked", "claimLoserRefiled",
 	"getBeaconServesAllValueTypes", "getBeaconBuildsRequestedType"}
 
 func c07Run(fs *Facts) {
@@ -552,7 +552,37 @@ func c07LimitZero(fs *Facts, f *File) {
 		return
 	}
 	c07Canon(fd, []string{"s", "beaconType", "beaconOrderType", "from", "limit", "fromTime", "toTime", "selectedTreasures", "err", "returningTreasures", "d"})
-	if f.Contains(fd.Body, "if limit == 0 { limit = int32(s.beaconKey.Count()) }") {
+	// the statement LIST of the function is pinned: anything between these statements (a cap on the limit, a second
+	// offset …) is a different function
+	want := []string{
+		"atomic.StoreInt64(&s.lastInteractionTime, time.Now().UnixNano())",
+		"if from < 0 { from = 0 }", // (optional: a negative offset reads from the start)
+		"if limit == 0 { limit = int32(s.beaconKey.Count()) }",
+		"var selectedTreasures []treasure.Treasure",
+		"var err error",
+		"switch beaconType { case BeaconTypeKey: selectedTreasures, err = s.findInKeyBeacon(beaconOrderType, from, limit) case BeaconTypeExpirationTime: selectedTreasures, err = s.findInExpirationTimeBeacon(beaconOrderType, from, limit, fromTime, toTime) case BeaconTypeCreationTime: selectedTreasures, err = s.findInCreationTimeBeacon(beaconOrderType, from, limit, fromTime, toTime) case BeaconTypeUpdateTime: selectedTreasures, err = s.findInUpdateTimeBeacon(beaconOrderType, from, limit, fromTime, toTime) default: selectedTreasures, err = s.findInValueBeacon(beaconOrderType, beaconType, from, limit) }",
+		"if err != nil { return nil, err }",
+		"var returningTreasures []treasure.Treasure",
+		"for _, d := range selectedTreasures { returningTreasures = append(returningTreasures, d) }",
+		"return returningTreasures, nil",
+	}
+	var got []string
+	for _, st := range fd.Body.List {
+		got = append(got, c07StripHooks(f.Str(st)))
+	}
+	match := func(w []string) bool {
+		if len(w) != len(got) {
+			return false
+		}
+		for i := range w {
+			if w[i] != got[i] {
+				return false
+			}
+		}
+		return true
+	}
+	without := append(append([]string{}, want[:1]...), want[2:]...)
+	if match(want) || match(without) {
 		fs.Tri("limitZeroAll", Yes, c07At(c07Swamp, f, fd))
 	}
 }
